@@ -63,6 +63,7 @@ def it_item_consuming(i):
     if h == "ISep": return consuming(i[1])
     if h in ("IEnum",): return it_item_consuming(i[1])
     if h in ("IMap", "IMapWith"): return it_item_consuming(i[2])
+    if h == "IThen": return it_item_consuming(i[1]) and it_item_consuming(i[2])
     return False
 
 def it_consuming(i):
@@ -71,6 +72,7 @@ def it_consuming(i):
     if h == "ISep": return i[3] >= 1 and consuming(i[1])
     if h == "IEnum": return it_consuming(i[1])
     if h in ("IMap", "IMapWith"): return it_consuming(i[2])
+    if h == "IThen": return it_consuming(i[1]) or it_consuming(i[2])
     return False
 
 # ---------------------------------------------------------------------------------------------
@@ -86,7 +88,7 @@ EMIT = ["Validate"]
 RECOVER = ["RecoverVia", "RecoverSkipUntil", "RecoverSkipRetry"]
 DECOR = ["Labelled", "MapErr"]
 CTX = ["WithCtx", "IgnoreWithCtx", "ThenWithCtx", "MapCtx", "JustCfg"]
-LEAVES = {"End", "Empty", "Any", "Just", "OneOf", "NoneOf", "Select", "Custom", "JustCfg", "Skip", "NestedDelims", "AnyRef", "SelectRef"}
+LEAVES = {"End", "Empty", "Any", "Just", "OneOf", "NoneOf", "Select", "Custom", "JustCfg", "Skip", "NestedDelims", "AnyRef", "SelectRef", "Prog"}
 WS = [32, 9]        # the whitespace characters used with (Padded ws a); inputs of such grammars get them in their alphabet
 DELIMS = [(40, 41), (91, 93), (123, 125)]
 sexp_G_HEADS = {"End", "Empty", "Any", "Just", "OneOf", "NoneOf", "Select", "Custom", "Map", "MapWith", "To", "Ignored",
@@ -133,12 +135,18 @@ class Gen:
     def leaf(self, consuming_only=False):
         for _ in range(20):
             c = self.r.choice(self.leaves)
-            if consuming_only and c in ("End", "Empty", "JustCfg", "Skip"): continue
+            if consuming_only and c in ("End", "Empty", "JustCfg", "Skip", "Prog"): continue
             break
         else:
             c = "Any"
         if c in ("End", "Empty", "Any", "AnyRef"): return c
         if c == "SelectRef": return ["SelectRef", self.pred(), self.fn1()]
+        if c == "Prog":
+            ops = []
+            for _ in range(self.r.randint(1, 6)):
+                o = self.r.choice(["CNext", "CNext", "CNextRef", "CPeek", "CSkip", "CSave", "CRewind", "CSpan", "CState", "CExpect", "CExpect"])
+                ops.append(["CExpect", self.tok()] if o == "CExpect" else o)
+            return ["Prog", ops, self.k()]
         if c == "Just": return ["Just", self.toks(1, 2) if self.r.random() < 0.9 else self.toks(0, 3)]
         if c in ("OneOf", "NoneOf"): return [c, self.toks(1, 3)]
         if c == "Select": return ["Select", self.pred(), self.fn1()]
@@ -295,11 +303,35 @@ class Gen:
             lambda: ["Then", M, ["Just", self.toks(1, 1)]],
         ])()
         second = self.r.choice([["Then", M, self.g(1)], M, ["Then", ["OrNot", self.leaf(True)], M], ["Labelled", self.k(), 1, M]])
+        if body[0] == "Then" and self.r.random() < 0.7:
+            # a sibling alternative that fails at the same (deeper) position as the memoized parser: their errors must merge
+            other = self.r.choice([t for t in self.alpha if [t] != body[2][1]] or self.alpha)
+            sib = ["Then", body[1], ["Just", [other]]]
+            second = self.r.choice([["Or", M, sib], ["Choice", [sib, M]], ["Or", ["Then", M, self.g(1)], sib]])
         c = self.r.random()
         if c < 0.5: g = ["Or", first, second]
         elif c < 0.8: g = ["Choice", [first, second, ["Then", M, M]]]
         else: g = ["Then", ["OrNot", first], second]
         return g
+
+    def leftrec_wrapped(self):
+        """a memoized left-recursive rule directly under map_err / recover_with / an extension parser / labelled: the cut-off of the
+        left recursion must leave an error behind for them"""
+        lr = self.leftrec()
+        k = self.r.random()
+        def wrap(x):
+            if k < 0.3: return ["MapErr", self.k(), x]
+            if k < 0.55: return ["RecoverVia", x, self.r.choice(["Empty", ["To", self.k(), "Any"]])]
+            if k < 0.7: return ["ExtWrap", x]
+            if k < 0.85: return ["RecoverSkipRetry", x, "Any", "End"]
+            return ["Labelled", self.k(), 1, x]
+        # wrap the memoized node itself (the parser that is re-entered)
+        def walk(x):
+            if isinstance(x, list):
+                if x and x[0] == "Memo": return wrap(x)
+                return [walk(a) for a in x]
+            return x
+        return walk(lr)
 
     def memoize(self, g, prob=0.3, counter=None):
         """wrap random sub-grammars (G positions only) in Memo with unique ids"""
@@ -316,11 +348,11 @@ class Gen:
             if not isinstance(h, str): return [walk(y) for y in x]
             if h in sexp_G_HEADS:
                 return wrap([h] + [walk_arg(h, i, a) for i, a in enumerate(x[1:])])
-            if h in ("IRep", "ISep", "IEnum", "IMap", "IMapWith", "IOrNot", "IRepCfg", "IIntoIter", "PInfix", "PPrefix", "PPostfix"):
+            if h in ("IRep", "ISep", "IEnum", "IMap", "IMapWith", "IOrNot", "IRepCfg", "IIntoIter", "IThen", "PInfix", "PPrefix", "PPostfix"):
                 return [h] + [walk_arg(h, i, a) for i, a in enumerate(x[1:])]
             return x
         def walk_arg(h, i, a):
-            if isinstance(a, list) and a and isinstance(a[0], str) and (a[0] in sexp_G_HEADS or a[0] in ("IRep", "ISep", "IEnum", "IMap", "IMapWith", "IOrNot", "IRepCfg", "IIntoIter", "PInfix", "PPrefix", "PPostfix")):
+            if isinstance(a, list) and a and isinstance(a[0], str) and (a[0] in sexp_G_HEADS or a[0] in ("IRep", "ISep", "IEnum", "IMap", "IMapWith", "IOrNot", "IRepCfg", "IIntoIter", "IThen", "PInfix", "PPrefix", "PPostfix")):
                 return walk(a)
             if isinstance(a, str) and a in ("End", "Empty", "Any"): return wrap(a)
             if h in ("Group", "Choice", "ChoiceVec") and isinstance(a, list): return [walk(y) for y in a]
@@ -352,7 +384,17 @@ class Gen:
             else: sep = self.g(max(d - 1, 0), True)
             base = ["ISep", item, sep, lo, hi, self.r.randint(0, 1), self.r.randint(0, 1)]
         elif c < 0.93 and "JustCfg" in self.ctors: base = ["IRepCfg", item, lo, hi, self.r.choice([0, 0, 1, 2, 3, 4, 4, 5, 6, 7, 8, 8])]
-        elif not unit: base = ["IOrNot", item]
+        elif c < 0.965 and not unit: base = ["IOrNot", item]
+        elif not unit:
+            # i.then(j) used as an iterable: the items of i, then those of (a fresh) j
+            def half():
+                k = self.r.random()
+                l2, h2 = self.bounds()
+                x = self.g(max(d - 1, 0), True)
+                if k < 0.5: return ["IRep", x, l2, h2]
+                if k < 0.85: return ["ISep", x, ["Just", [COMMA]], l2, h2, self.r.randint(0, 1), self.r.randint(0, 1)]
+                return ["IOrNot", x]
+            base = ["IThen", half(), half()]
         else: base = ["IRep", item, lo, hi]
         if unit: return base
         # adaptors: chumsky 0.10.1 only offers map/map_with on iterables whose items are `()`; enumerate goes on top
@@ -376,6 +418,12 @@ def sample(rng, g, alpha, ctx=()):
     S = lambda x: sample(rng, x, alpha, ctx)
     if h in ("End", "Empty"): return []
     if h == "Skip": return [rng.choice(alpha) for _ in range(g[1])]
+    if h == "Prog":
+        out = []
+        for o in g[1]:
+            if o in ("CNext", "CNextRef", "CSkip"): out.append(rng.choice(alpha))
+            elif isinstance(o, list) and o[0] == "CExpect": out.append(o[1])
+        return out
     if h == "NestedDelims":
         pairs = [(g[1], g[2])] + [tuple(x) for x in g[3]]
         def bal(d):
@@ -519,6 +567,7 @@ def sample_it(rng, i, alpha, ctx, exactly=None):
     if h in ("IMap", "IMapWith"): return sample_it(rng, i[2], alpha, ctx, exactly)
     if h == "IOrNot": return sample(rng, i[1], alpha, ctx) if rng.random() < 0.6 else []
     if h == "IIntoIter": return sample(rng, i[1], alpha, ctx)
+    if h == "IThen": return sample_it(rng, i[1], alpha, ctx) + sample_it(rng, i[2], alpha, ctx)
     if h in ("IRep", "IRepCfg"):
         lo, hi = i[2], i[3]
         if h == "IRepCfg":
